@@ -362,3 +362,170 @@ pub fn to_pointer(p: &[Step]) -> Vec<sonic_rs::PointerNode> {
         })
         .collect()
 }
+
+/// Where each value of a rendered document sits in the text (value spans exclude surrounding
+/// whitespace); `kids` are array elements / object member values in order.
+#[derive(Clone, Debug)]
+pub struct Span {
+    pub start: usize,
+    pub end: usize,
+    pub kids: Vec<Span>,
+}
+
+impl Span {
+    /// re-base so that this span starts at 0 (for the substring `text[start..end]`)
+    pub fn rebased(&self) -> Span {
+        fn sh(s: &Span, by: usize) -> Span {
+            Span { start: s.start - by, end: s.end - by, kids: s.kids.iter().map(|k| sh(k, by)).collect() }
+        }
+        sh(self, self.start)
+    }
+}
+
+pub fn render_spans(j: &J, st: &Style) -> (String, Span) {
+    let mut out = String::new();
+    if st.ws == 2 && chance(1, 2) {
+        ws(&mut out, st);
+    }
+    let sp = render_spans_into(j, st, &mut out);
+    if st.ws == 2 && chance(1, 2) {
+        ws(&mut out, st);
+    }
+    (out, sp)
+}
+
+fn render_spans_into(j: &J, st: &Style, out: &mut String) -> Span {
+    let start = out.len();
+    let mut kids = Vec::new();
+    match j {
+        J::Arr(a) => {
+            out.push('[');
+            ws(out, st);
+            for (i, x) in a.iter().enumerate() {
+                if i > 0 {
+                    out.push(',');
+                    ws(out, st);
+                }
+                kids.push(render_spans_into(x, st, out));
+                ws(out, st);
+            }
+            out.push(']');
+        }
+        J::Obj(m) => {
+            out.push('{');
+            ws(out, st);
+            for (i, (k, v)) in m.iter().enumerate() {
+                if i > 0 {
+                    out.push(',');
+                    ws(out, st);
+                }
+                render_string(out, k, st);
+                ws(out, st);
+                out.push(':');
+                ws(out, st);
+                kids.push(render_spans_into(v, st, out));
+                ws(out, st);
+            }
+            out.push('}');
+        }
+        other => render_into(other, st, out),
+    }
+    Span { start, end: out.len(), kids }
+}
+
+/// Span tree of well-formed JSON text (harness-side scanner; the text comes from our own renderer
+/// or from the reference serializer).
+pub fn spans_of(text: &str) -> Span {
+    fn skip_ws(b: &[u8], i: &mut usize) {
+        while *i < b.len() && matches!(b[*i], b' ' | b'\t' | b'\n' | b'\r') {
+            *i += 1;
+        }
+    }
+    fn skip_string(b: &[u8], i: &mut usize) {
+        *i += 1;
+        while *i < b.len() {
+            match b[*i] {
+                b'\\' => *i += 2,
+                b'"' => {
+                    *i += 1;
+                    return;
+                }
+                _ => *i += 1,
+            }
+        }
+    }
+    fn value(b: &[u8], i: &mut usize) -> Span {
+        skip_ws(b, i);
+        let start = *i;
+        let mut kids = Vec::new();
+        match b[*i] {
+            b'"' => skip_string(b, i),
+            b'[' => {
+                *i += 1;
+                skip_ws(b, i);
+                if b[*i] == b']' {
+                    *i += 1;
+                } else {
+                    loop {
+                        kids.push(value(b, i));
+                        skip_ws(b, i);
+                        let c = b[*i];
+                        *i += 1;
+                        if c == b']' {
+                            break;
+                        }
+                    }
+                }
+            }
+            b'{' => {
+                *i += 1;
+                skip_ws(b, i);
+                if b[*i] == b'}' {
+                    *i += 1;
+                } else {
+                    loop {
+                        skip_ws(b, i);
+                        skip_string(b, i);
+                        skip_ws(b, i);
+                        *i += 1; // ':'
+                        kids.push(value(b, i));
+                        skip_ws(b, i);
+                        let c = b[*i];
+                        *i += 1;
+                        if c == b'}' {
+                            break;
+                        }
+                    }
+                }
+            }
+            _ => {
+                while *i < b.len() && !matches!(b[*i], b',' | b']' | b'}' | b' ' | b'\t' | b'\n' | b'\r') {
+                    *i += 1;
+                }
+            }
+        }
+        Span { start, end: *i, kids }
+    }
+    let mut i = 0;
+    value(text.as_bytes(), &mut i)
+}
+
+pub fn span_at<'a>(sp: &'a Span, j: &J, path: &[Step]) -> Option<&'a Span> {
+    let mut cur = sp;
+    let mut cj = j;
+    for st in path {
+        match (st, cj) {
+            (Step::Idx(i), J::Arr(a)) => {
+                cj = a.get(*i)?;
+                cur = cur.kids.get(*i)?;
+            }
+            (Step::Key(k), J::Obj(m)) => {
+                let pos = m.iter().position(|(kk, _)| kk == k)?;
+                cj = &m[pos].1;
+                cur = cur.kids.get(pos)?;
+            }
+            _ => return None,
+        }
+    }
+    Some(cur)
+}
